@@ -74,7 +74,7 @@ C17_OPS = [["take_with_time", "take_until_with_time", "take_until_abs", "skip_wi
             "take_last_with_time", "skip_last_with_time", "timeout", "timeout_abs"],
            ["timeout_other", "timeout_abs_other"], ["timeout_with_mapper", "timeout_with_mapper_other"]]
 
-MODEL_INVS = ["TypeOK", "Grammar", "Causal", "NotEarly", "Silent", "Released", "RefOK", "BoundaryIndependent"]
+MODEL_INVS = ["TypeOK", "Grammar", "Causal", "NotEarly", "Silent", "Released", "RefOK", "BoundaryIndependent", "EchoOK"]
 
 # ---- values ---------------------------------------------------------------------------------------------
 
@@ -165,12 +165,19 @@ class Script:
         self.s, self.clk, self.events, self.mode = s, clk, events, mode
         self.subs: List[List[Any]] = []
         self.observers: List[Any] = []
+        self.ended = False
         self.obs = reactivex.Observable(self._subscribe)
         if mode == "hot":
             for ev in events:
                 s.schedule_absolute(clk.A(ev[0]), self._hot_action(ev))
         elif mode in ("hot_chain", "hot_pre") and events:
             s.schedule_absolute(clk.A(events[0][0]), self._chain_action(0))
+
+    def push(self, value):
+        """feedback: somebody pushes one more element into this (hot) source, now; a terminated source ignores it"""
+        if not self.ended:
+            for o in self.observers[:]:
+                o.on_next(value)
 
     @staticmethod
     def _send(o, ev):
@@ -183,6 +190,8 @@ class Script:
 
     def _hot_action(self, ev):
         def action(_s, _st=None):
+            if ev[1] != "N":
+                self.ended = True
             for o in self.observers[:]:
                 self._send(o, ev)
         return action
@@ -192,6 +201,8 @@ class Script:
             nxt = k + 1 < len(self.events)
             if nxt and self.mode == "hot_pre":
                 self.s.schedule_absolute(self.clk.A(self.events[k + 1][0]), self._chain_action(k + 1))
+            if self.events[k][1] != "N":
+                self.ended = True
             for o in self.observers[:]:
                 self._send(o, self.events[k])
             if nxt and self.mode == "hot_chain":
@@ -352,6 +363,8 @@ def build_operator(scn, s, clk: Clock, V, cfg, made):
 
 
 def src_modes(scn) -> List[str]:
+    if scn.get("fbk", 0) > 0:
+        return ["hot", "hot_chain", "hot_pre"]       # the sink pushes into the source: a hot, pushable one
     if scn["op"] in HOT_OPS:
         return ["hot", "hot_chain", "hot_pre"] if scn["hot"] else ["cold", "cold_chain"]
     if (scn["src"] and scn["src"][0] == 0) or (scn["term"] != "U" and scn["tT"] == 0):
@@ -391,7 +404,9 @@ def run_scenario(scn: Dict[str, Any], cfg: Dict[str, Any]) -> Dict[str, Any]:
 
     if scn["op"] == "sample_obs" and cfg.get("auxfirst"):
         mk_aux()
-    if cfg.get("clock", "test") == "test" and mode in ("hot", "cold") and not cfg.get("ownsrc"):
+    fbk = scn.get("fbk", 0)
+    sc = None
+    if cfg.get("clock", "test") == "test" and mode in ("hot", "cold") and not cfg.get("ownsrc") and not fbk:
         # the library's own test sources
         from reactivex.testing import ReactiveTest
         msgs = [ReactiveTest.on_next(t, p) if k == "N" else ReactiveTest.on_completed(t) if k == "C" else ReactiveTest.on_error(t, p)
@@ -413,9 +428,15 @@ def run_scenario(scn: Dict[str, Any], cfg: Dict[str, Any]) -> Dict[str, Any]:
     off2 = S * cfg.get("off2", 0)
 
     def subscriber(key, r, shift):
+        def on_next(v):
+            r.append((clk.secs(s) - shift, "N", v))
+            if fbk and key == "d" and sum(1 for x in r if x[1] == "N") == fbk:
+                # feedback: the consumer, inside this very on_next, feeds one more element into the source it consumes
+                sc.push(V["src"][len(scn["src"])])
+
         def subscribe(_s=None, _st=None):
             kw = {"scheduler": s} if cfg.get("subsched", True) else {}
-            holder[key] = ys.subscribe(on_next=lambda v: r.append((clk.secs(s) - shift, "N", v)),
+            holder[key] = ys.subscribe(on_next=on_next,
                                        on_error=lambda e: r.append((clk.secs(s) - shift, "E", e)),
                                        on_completed=lambda: r.append((clk.secs(s) - shift, "C", None)), **kw)
         return subscribe
@@ -561,6 +582,12 @@ def witness(scn, allowed, got) -> Dict[str, Any]:
     extra = [x for x in got_ix if x not in exp_ix]
     missing = [x for x in exp_ix if x not in got_ix]
     w["extra"], w["missing"] = extra, missing
+    if scn.get("fbk", 0) > 0:
+        # the element fed back by the sink is missing and nothing else is wrong
+        echo = len(scn["src"]) + 1
+        w["echo_lost"] = echo not in got_ix and any(
+            echo in [e["i"] for e in a["out"] if e["k"] == "N"] and [e["i"] for e in a["out"] if e["k"] == "N" and e["i"] != echo] == got_ix
+            for a in allowed)
     if scn["op"] in ("delay", "delay_abs") and scn["term"] == "E":
         # the source's error arrived d late (instead of at once), nothing else wrong: every element observed was due before it
         d = max(scn["par"]["d"], 0)
@@ -661,7 +688,7 @@ def variants(scn, hz, tier, seed=0, clocks=("test", "hist")) -> List[Dict[str, A
                         "specmode": ("cold", "cold_chain")[(g // 3) % 2], "fbmode": "cold", "alias": False,
                         "errprofile": ("falsy", "plain")[(g // 7) % 2]})
     # two subscribers of the same pipeline
-    if tier == "thorough" or h % 4 == 0:
+    if (tier == "thorough" or h % 4 == 0) and not scn.get("fbk"):
         g = h // 4
         cold = [m_ for m_ in modes if m_.startswith("cold")]
         shifted = bool(cold) and op not in ABS_OPS and op != "timestamp" and g % 3 != 0       # the later subscriber needs a cold source
